@@ -4,6 +4,7 @@ import os
 
 from mc.cli import observe as O
 from mc.cli import run as R
+from mc.explore.forked import forked
 
 GOOD = {
     "defines_t_fail": ":root {\n  --t: #777;\n}\n.a {\n  color: var(--t);\n}\n",
@@ -11,6 +12,7 @@ GOOD = {
     "uses_t_undefined": ".d {\n  color: var(--t, #999);\n}\n.e {\n  color: var(--t);\n  background-color: #fff;\n}\n",
     "no_vars": ".f {\n  color: #777;\n  background-color: #fff;\n}\n.g {\n  color: #000;\n}\n@media print {\n  .h { color: #8a8a8a }\n}\n",
 }
+GOOD["same_pair_rgb_notation"] = ".n {\n  color: rgb(119, 119, 119);\n  background-color: white;\n}\n"
 GOOD_ORDER = list(GOOD)
 FAULTS = ["non_utf8", "directory", "dangling_link", "unserialisable", "empty"]
 FAULT_POS = ["0.css", "b.css", "n.css", "sub/y.css"]
@@ -56,12 +58,51 @@ def solo_output(text, name, settings):
     """Bytes of <name>_cm.css when the tool runs on this file alone in an empty directory (None = no output)."""
     k = (text, os.path.basename(name), settings)
     if k not in _SOLO:
-        with R.Workdir() as w, R.Workdir() as cwd:
-            p = w.write(os.path.basename(name), text)
-            R.run_cli(O.cli_args(p, settings), cwd.path)
-            outp = p[:-4] + "_cm.css"
-            _SOLO[k] = open(outp, "rb").read() if os.path.exists(outp) else None
+        status, res = forked(_solo_here, text, os.path.basename(name), settings)
+        if status != "ok":
+            raise RuntimeError("solo run failed: %s" % res)
+        _SOLO[k] = res
     return _SOLO[k]
+
+
+def _solo_here(text, name, settings):
+    with R.Workdir() as w, R.Workdir() as cwd:
+        p = w.write(name, text)
+        R.run_cli(O.cli_args(p, settings), cwd.path)
+        outp = p[:-4] + "_cm.css"
+        return open(outp, "rb").read() if os.path.exists(outp) else None
+
+
+def _batch_here(goods, faults, settings, perm):
+    """(forked child) build the tree, run the command on it twice, return every observation."""
+    from cm_colors.cli import main as M
+
+    with R.Workdir() as w, R.Workdir() as cwd:
+        for rel, key in goods:
+            w.write(rel, GOOD[key])
+        for rel, kind in faults:
+            make_fault(w, rel, kind)
+        before = snapshot(w.path)
+        orig = getattr(M, "get_css_files", None)
+        if perm is not None:
+            if orig is None:
+                return None
+
+            def permuted(path, _orig=orig, _perm=perm):
+                files = list(_orig(path))
+                files.sort(key=lambda p: str(p))
+                if len(_perm) != len(files):
+                    return iter(files)
+                return iter([files[i] for i in _perm])
+
+            M.get_css_files = permuted
+        res1 = R.run_cli(O.cli_args(w.path, settings), cwd.path)
+        after1 = snapshot(w.path)
+        res2 = R.run_cli(O.cli_args(w.path, settings), cwd.path)
+        after2 = snapshot(w.path)
+        root = w.path
+    strip = lambda r: dict(r, stderr=r["stderr"].replace(root + os.sep, ""), stdout=r["stdout"].replace(root + os.sep, ""))
+    return before, after1, after2, strip(res1), strip(res2)
 
 
 def judge_tree(goods, faults, settings=SETTINGS, perm=None):
@@ -75,35 +116,23 @@ def judge_tree(goods, faults, settings=SETTINGS, perm=None):
     def v(sig, msg):
         out.append(dict(sig=sig, case=case, msg=msg + tag))
 
-    from cm_colors.cli import main as M
-
-    with R.Workdir() as w, R.Workdir() as cwd:
-        for rel, key in goods:
-            w.write(rel, GOOD[key])
-        for rel, kind in faults:
-            make_fault(w, rel, kind)
-        before = snapshot(w.path)
-        orig = getattr(M, "get_css_files", None)
-        seam = False
-        if perm is not None:
-            if orig is None:
-                return None
-            def permuted(path, _orig=orig, _perm=perm):
-                files = list(_orig(path))
-                files.sort(key=lambda p: str(p))
-                if len(_perm) != len(files):
-                    return iter(files)
-                return iter([files[i] for i in _perm])
-            M.get_css_files = permuted
-            seam = True
-        try:
-            res1 = R.run_cli(O.cli_args(w.path, settings), cwd.path)
-            after1 = snapshot(w.path)
-            res2 = R.run_cli(O.cli_args(w.path, settings), cwd.path)
-            after2 = snapshot(w.path)
-        finally:
-            if seam:
-                M.get_css_files = orig
+    expected = {}
+    for rel, key in goods:
+        expected[rel[:-4] + "_cm.css"] = solo_output(GOOD[key], rel, settings)
+    for rel, kind in faults:
+        if kind == "empty":
+            expected[rel[:-4] + "_cm.css"] = solo_output("", rel, settings)
+        elif kind == "unserialisable":
+            expected[rel[:-4] + "_cm.css"] = solo_output(".u {\n  *zoom: 1;\n  color: #777;\n}\n", rel, settings)
+        else:
+            expected[rel[:-4] + "_cm.css"] = None
+    status, obs = forked(_batch_here, goods, faults, settings, perm)
+    if status != "ok":
+        raise RuntimeError("batch run failed in the child: %s" % obs)
+    if obs is None:
+        return None
+    before, after1, after2, res1, res2 = obs
+    if True:
         for res, which in ((res1, "first"), (res2, "second")):
             if res["exc"] or res["exit_code"] != 0:
                 v("batch/run_aborted", "the %s directory run exited %s (%s)" % (which, res["exit_code"], res["exc"]))
@@ -112,16 +141,6 @@ def judge_tree(goods, faults, settings=SETTINGS, perm=None):
         for rel, k, data in before:
             if d1.get(rel) != (k, data):
                 v("batch/input_changed", "input %s changed during the run" % rel)
-        expected = {}
-        for rel, key in goods:
-            expected[rel[:-4] + "_cm.css"] = solo_output(GOOD[key], rel, settings)
-        for rel, kind in faults:
-            if kind == "empty":
-                expected[rel[:-4] + "_cm.css"] = solo_output("", rel, settings)
-            elif kind == "unserialisable":
-                expected[rel[:-4] + "_cm.css"] = solo_output(".u {\n  *zoom: 1;\n  color: #777;\n}\n", rel, settings)
-            else:
-                expected[rel[:-4] + "_cm.css"] = None
         b_names = {rel for rel, _k, _d in before}
         for name, want in sorted(expected.items()):
             got = d1.get(name)
